@@ -176,6 +176,7 @@ package cache
 //@   ensures [leaf-values-untouched] forall r ref :: LeafVal(r) == old(LeafVal(r))
 //@   ensures [other-trees-kept] forall u ref :: u != t.t ==> tstore[u] == old(tstore[u]) && treal[u] == old(treal[u])
 //@   ensures [announce-each C03] forall i int :: 0 <= i && i < len(res0) ==> res0[i] != nil
+//@   ensures [only-the-leaf-and-delete-counters-move C15] forall name string :: name != "targetLeaves" && name != "targetLeavesDeleted" ==> intAdded[t.meta][name] == old(intAdded[t.meta][name])
 //@   ensures [every-announced-removal-is-counted-once C15] Added(t, "targetLeaves") == 0 - len(res0) && Added(t, "targetLeavesDeleted") == len(res0)
 //@   ensures [metadata-entry-reset-iff-a-metadata-leaf-is-addressed C15 C14] hits("call (*Metadata).ResetEntry#0") == old(hits("call (*Metadata).ResetEntry#0")) + ite(len(JPD(n)) > 1 && JPD(n)[0] == "meta", 1, 0)
 //@   assert at call (*Metadata).ResetEntry#0: [the-addressed-entry-is-reset C15] arg0 == t.meta && arg1 == JPD(n)[1]
@@ -230,6 +231,10 @@ package cache
 //@   && (n.Update[0].Path.Elem[0] == nil || n.Update[0].Path.Elem[0].Name != "meta")
 //@ pred Single(n *pb.Notification) := !n.Atomic && len(n.Update) == 1 && len(n.Delete) == 0
 
+// Counter deltas of one GnmiUpdate call: updated / empty, and the four outcomes of an update step taken together.
+//@ pred NU(t *Target) := Added(t, "targetLeavesUpdated")
+//@ pred NE(t *Target) := Added(t, "targetLeavesEmpty")
+//@ pred Cnt(t *Target) := Added(t, "targetLeavesUpdated") + Added(t, "targetLeavesSuppressed") + Added(t, "targetLeavesStale") + Added(t, "targetLeavesFuture")
 //@ func (*Target).GnmiUpdate
 //@   props C03 C12 C14 C15 C02 C01
 //@   requires TargetWf(t) && NotiWf(n) && n.Prefix != nil && n.Prefix.Target != "" && StoredWf(t) && CountersRegistered() && AllTVWf()
@@ -237,13 +242,28 @@ package cache
 //@   modifies ghost tstore, ghost treal, ghost intAdded, ghost boolSets, ghost lastBool, ghost strSets, ghost lastStr, ghost latSamples, ghost lastSampleTs, ghost lastSynced, ghost owed, ghost tsSeen, ghost updSteps, ghost delSteps, ghost wiped, ghost resetDone, heap(ctree.Tree.leafBranch), t.sync, t.ts, n.Update, n.Delete
 //@   invariant 0: (old(StoredExist()) ==> StoredExist()) && CountersRegistered() && OthersKept(t) && len(owed) == 0 && StoredWf(t) && n.Update == nil && n.Delete == nil && InputsWf(updates, deletes)
 //@     && updates == old(n.Update) && deletes == old(n.Delete) && updSteps == old(updSteps) + $i && delSteps == old(delSteps) && 0 <= $i && $i <= len(updates)
+//@     && Cnt(t) <= $i && NU(t) >= 0 && NE(t) == 0
 //@   invariant 1: (old(StoredExist()) ==> StoredExist()) && CountersRegistered() && OthersKept(t) && len(owed) == 0 && StoredWf(t) && n.Update == nil && n.Delete == nil && InputsWf(updates, deletes)
 //@     && updates == old(n.Update) && deletes == old(n.Delete) && updSteps == old(updSteps) + len(updates) && delSteps == old(delSteps) + $i && 0 <= $i && $i <= len(deletes)
+//@     && Cnt(t) <= len(updates) + $i && NU(t) >= $i && NE(t) == 0
 //@   invariant 2: (old(StoredExist()) ==> StoredExist()) && CountersRegistered() && OthersKept(t) && StoredWf(t) && n.Update == nil && n.Delete == nil && InputsWf(updates, deletes) && Owing($range, $i)
 //@     && updates == old(n.Update) && deletes == old(n.Delete) && updSteps == old(updSteps) + len(updates) && delSteps == old(delSteps) + $i1 + 1 && 0 <= $i1 && $i1 < len(deletes)
+//@     && Cnt(t) <= len(updates) + $i1 + 1 && NU(t) >= $i1 + 1 && NE(t) == 0
 //@   invariant 3: (old(StoredExist()) ==> StoredExist()) && CountersRegistered() && OthersKept(t) && StoredWf(t) && Owing($range, $i) && updSteps == old(updSteps) && delSteps == old(delSteps) + 1
+//@     && Cnt(t) == 1 && NU(t) == 1 && NE(t) == 0
 //@   ensures [updates-then-deletes C03 C01] !n.Atomic ==> updSteps == old(updSteps) + old(len(n.Update)) && delSteps == old(delSteps) + old(len(n.Delete))
 //@   ensures [atomic-is-one-step C03 C01] n.Atomic && len(n.Delete) == 0 ==> updSteps == old(updSteps) + ite(len(n.Update) > 0, 1, 0) && delSteps == old(delSteps)
+//@   ensures [an-empty-notification-is-counted-as-empty C15] old(len(n.Update)) == 0 && old(len(n.Delete)) == 0 ==> res0 == nil && NE(t) == 1 && Cnt(t) == 0
+//@   ensures [nothing-else-is-counted-as-empty C15] old(len(n.Update)) + old(len(n.Delete)) > 0 ==> NE(t) == 0
+//@   ensures [an-accepted-single-update-is-updated-or-suppressed C15] old(Single(n)) && res0 == nil ==> Cnt(t) == 1 && NU(t) + Added(t, "targetLeavesSuppressed") == 1
+//@   ensures [a-refused-single-update-is-stale-future-or-an-error C15] old(Single(n)) && res0 != nil ==> NU(t) == 0 && Added(t, "targetLeavesSuppressed") == 0 && Cnt(t) <= 1
+//@     && (res0 == ErrStale ==> Added(t, "targetLeavesStale") == 1) && (res0 == ErrFuture ==> Added(t, "targetLeavesFuture") == 1)
+//@   ensures [a-single-delete-counts-as-one-update C15] !n.Atomic && old(len(n.Update)) == 0 && old(len(n.Delete)) == 1 ==> res0 == nil && NU(t) == 1 && Cnt(t) == 1
+//@   ensures [an-atomic-group-counts-all-its-updates-or-one-suppression C15] n.Atomic && old(len(n.Delete)) == 0 && old(len(n.Update)) > 0 && res0 == nil ==>
+//@     (Added(t, "targetLeavesSuppressed") == 1 && NU(t) == 0) || (Added(t, "targetLeavesSuppressed") == 0 && NU(t) == old(len(n.Update)))
+//@   ensures [atomic-deletes-are-refused-uncounted C15] n.Atomic && old(len(n.Delete)) > 0 ==> res0 != nil && Cnt(t) == 0 && NE(t) == 0
+//@   ensures [a-multi-notification-counts-each-step-at-most-once-and-every-delete C15] !n.Atomic && old(len(n.Update)) + old(len(n.Delete)) > 1 ==>
+//@     Cnt(t) <= old(len(n.Update)) + old(len(n.Delete)) && NU(t) >= old(len(n.Delete))
 //@   ensures [ts-advanced-on-accept C15] old(GuardTS(n)) && old(Single(n)) && res0 == nil ==> tsSeen[t] >= n.Timestamp
 //@   ensures [ts-untouched-on-reject C15 C02] old(Single(n)) && res0 != nil ==> tsSeen == old(tsSeen)
 //@   ensures [latest-timestamp-any-path C15] old(Single(n)) && old(Real(n)) && res0 == nil ==> tsSeen[t] >= n.Timestamp
@@ -409,6 +429,7 @@ package cache
 //@   locks c
 //@   requires c != nil
 //@   modifies ghost wiped
+//@   assert at call field Cache.client#0: [removal-announced-while-the-cache-lock-is-held C14 C03] wheld(c.mu) && !has(c.targets, target)
 //@   ensures [unknown-afterwards C14] c.targets[target] == nil && !has(c.targets, target)
 //@   ensures [others-kept C14] forall k string :: k != target ==> c.targets[k] == old(c.targets[k]) && (has(c.targets, k) <==> old(has(c.targets, k)))
 //@   ensures [whole-target-delete-announced C14] has(wiped[target], "")
